@@ -8,14 +8,14 @@ same canonical atom strings that summary.py renders from the code.
     note <free text>
 
 Path steps:  :V  downcast that implies `is(prefix; V)`      !V  downcast without implied guard (Node accessor)
-             .f  field     ?  payload of Some (implies is(prefix; Some))     [*] element     [k] index
+             .f  field     ?  payload of Some (implies is(prefix; Some))     [*] element     [*k] another element of the same list (bound witness k)     [*<k] a witness earlier in the list than [*]     [k] index
 Formula:     & | ! ( )   atoms:  P is V|W   P isnt V|W   P == "lit"   P == Q   len(P) >= n   name(args..)  (canonical predicate)
 Implied guards of every path mentioned in an atom are conjoined with that atom.
 """
 import re
 import boolalg as B
 
-STEP = re.compile(r"(:\{[A-Za-z0-9_|]+\}|:[A-Za-z0-9_]+|![A-Za-z0-9_]+|\.[A-Za-z0-9_]+|\?|~|\[\*[0-9]*\]|\[[0-9]+\]|\([^()]*\)\*)")
+STEP = re.compile(r"(:\{[A-Za-z0-9_|]+\}|:[A-Za-z0-9_]+|![A-Za-z0-9_]+|\.[A-Za-z0-9_]+|\?|~|\[\*<?[0-9]*\]|\[[0-9]+\]|\([^()]*\)\*)")
 
 
 class SpecError(Exception):
@@ -65,6 +65,8 @@ def expand_path(text, aliases):
         elif st == "~":
             implied.append(B.atom("is(%s; Ok)" % cur))
             cur = cur + "?"
+        elif re.match(r"\[\*<[0-9]+\]", st):
+            cur = cur + "[*<#%s]" % st[3:-1]  # an element earlier in the list than the current one ([*])
         elif re.match(r"\[\*[0-9]+\]", st):
             cur = cur + "[*#%s]" % st[2:-1]
         elif st.startswith("("):
